@@ -30,7 +30,8 @@ import (
 
 // ---------------------------------------------------------------- alphabets
 
-var c10SubjAlpha = []string{"a", "b", "é", "\xff"}
+// "\xa9" alone is a stray UTF-8 continuation byte (and the second byte of é): one character in character mode
+var c10SubjAlpha = []string{"a", "b", "é", "\xff", "\xa9"}
 
 var c10Two63 = 9223372036854775808.0
 
@@ -771,9 +772,17 @@ func c10CheckFlat(c *core.Ctx, f c10Flat, o c10FlatObs, chars bool) {
 		if f.t == "" {
 			return // index(s, "") is 0 in some awks and 1 in others: no-crash only
 		}
+		// first occurrence; in character mode an occurrence begins and ends between
+		// characters of s (only then substr(s, index(s, t), length(t)) == t can hold)
+		bound := map[int]bool{0: true}
+		off := 0
+		for _, x := range c10Units(f.s, true) {
+			off += len(x)
+			bound[off] = true
+		}
 		b := -1
 		for i := 0; i+len(f.t) <= len(f.s); i++ {
-			if f.s[i:i+len(f.t)] == f.t {
+			if f.s[i:i+len(f.t)] == f.t && (!chars || bound[i] && bound[i+len(f.t)]) {
 				b = i
 				break
 			}
